@@ -398,6 +398,22 @@ class Fn:
                 continue
             return n
 
+    def _narrowed_bits(self, outer, inner):
+        """bits of the narrowest integer type on the cast chain from `outer` down to `inner`, when inner is non-constant arithmetic
+        (+ - * <<) computed in a wider type; else None"""
+        if inner['k'] != 'BinaryOperator' or inner.get('op') not in ('+', '-', '*', '<<') or inner.get('v') is not None:
+            return None
+        wide = int_type(inner.get('t'))
+        if wide is None:
+            return None
+        m, nb = self.N(outer), None
+        while m is not inner and (m['k'].endswith('CastExpr') or m['k'] in TRANSPARENT) and m.get('c'):
+            b = int_type(m.get('t'))
+            if b and b[0] < wide[0] and (nb is None or b[0] < nb):
+                nb = b[0]
+            m = self.N(m['c'][0])
+        return nb
+
     def strip_all_casts(self, n):
         n = self.N(n)
         while True:
@@ -490,8 +506,13 @@ class Fn:
         if resolve and k == 'DeclRefExpr' and getattr(self, '_fwd', None) is not None and n.get('vid') in self.value_init and depth < 30:
             return self.render(self.strip_all_casts(self.value_init[n['vid']]), depth + 6, resolve)
         if resolve and k == 'DeclRefExpr' and n.get('vid') in self.const_init and n.get('v') is None and depth < 30:
-            # a const local stands for its initialiser (robust against hoisting an expression into a named const local)
-            return self.render(self.strip_all_casts(self.const_init[n['vid']]), depth + 6, resolve)
+            # a const local stands for its initialiser (robust against hoisting an expression into a named const local) -- unless
+            # the local is narrower than the arithmetic it holds: then it stands for the truncated value, which is another value
+            init = self.const_init[n['vid']]
+            inner = self.strip_all_casts(init)
+            txt = self.render(inner, depth + 6, resolve)
+            nb = self._narrowed_bits(init, inner)
+            return 'narrow%d(%s)' % (nb, txt) if nb else txt
         if resolve and k == 'DeclRefExpr' and n.get('v') is not None and n.get('vid') is None and n.get('dk') == 'Var':
             return str(n['v'])
         c = n.get('c') or []
@@ -511,6 +532,8 @@ class Fn:
             if not n.get('arrow') and base.startswith('*') and base[1:].replace('_', 'a').isalnum():
                 return '%s->%s' % (base[1:], n['d'].split('::')[-1])          # (*p).x is p->x
             return '%s%s%s' % (base, '->' if n.get('arrow') else '.', n['d'].split('::')[-1])
+        if k == 'CXXThisExpr' and self._env is not None and 'this' in self._env:
+            return self._env['this']
         if k == 'CXXThisExpr':
             return 'this'
         if k in ('IntegerLiteral', 'CharacterLiteral', 'CXXBoolLiteralExpr'):
